@@ -256,7 +256,7 @@ def run_corpus(ck, stream, n, per_bin=20, allow_regex=True, forms=None, default_
 
 
 def _sq(x):
-    return None if x is None else x.replace(" ", "")
+    return None if x is None else "".join(x.split())
 
 
 def compare(ck, cases, stream):
